@@ -23,4 +23,24 @@ ASSUME \A n \in 0..11, m \in {1, 3, 5, 11, 12} :
          IN  /\ AppendContentOK(b, t, m * ChunkSz)
              /\ LeafSizes(t) = [i \in 1..(n + m) |-> ChunkSz]
              /\ (~TrickleShapeOK(t, 2, "pb") => OnLayerBoundary(b, 2))
+
+(* CID layer (C08): the predicates accept the regular CID kinds of every builder, and reject a dangling link, an
+   identity CID over the digest limit, a hash the builder does not allow; only a plain DAG service under the
+   identity builder may refuse an append, and only if the DAG really holds a node it cannot store. *)
+CN(k, cv, hk, el, ch) == [k |-> k, cv |-> cv, hk |-> hk, el |-> el, ch |-> ch]
+ASSUME LET small == CN("pb", 1, "identity", 108, <<>>)
+           big   == CN("pb", 1, "sha2-256", 211, <<>>)
+           gone  == CN("missing", 1, "identity", -1, <<>>)
+           over  == CN("in", 1, "identity", 299, <<small>>)
+       IN  /\ StoreOK(CN("in", 1, "sha2-256", 299, <<small, big>>), "identity")
+           /\ Resolves(over) /\ ~AllCidOK(over, "identity")
+           /\ ~Resolves(CN("in", 1, "sha2-256", 299, <<small, gone>>))
+           /\ ~AllCidOK(CN("in", 1, "blake2b-256", 299, <<small>>), "identity")
+           /\ StoreOK(CN("in", 0, "sha2-256", -1, <<CN("raw", 1, "sha2-256", -1, <<>>)>>), "v0")
+           /\ ~AllCidOK(CN("in", 1, "sha2-256", -1, <<CN("raw", 1, "sha2-256", -1, <<>>)>>), "v0")
+           /\ \A cb \in CidBuilders \ {"v0", "identity"} :
+                 StoreOK(CN("in", 1, cb, -1, <<CN("pb", 1, cb, -1, <<>>)>>), cb) /\ ~AllCidOK(CN("pb", 1, "identity", 4, <<>>), cb)
+           /\ MayRefuse("identity", "trickle", over) /\ ~MayRefuse("identity", "modifier", over)
+           /\ ~MayRefuse("sha2-256", "trickle", over) /\ ~MayRefuse("identity", "trickle", CN("in", 1, "identity", 104, <<small>>))
+           /\ ~MayRefuse("identity", "trickle", CN("in", 1, "identity", 299, <<gone>>))
 =============================================================================
